@@ -283,7 +283,9 @@ class ArrayUnionMatcher(CombinationMatcher):
         return self._docnum < self._doccount
 
     def max_quality(self):
-        return max(m.max_quality() for m in self._submatchers)
+        # A document can match several sub-matchers, and its score is the sum
+        # of theirs
+        return sum(m.max_quality() for m in self._submatchers) * self._boost
 
     def block_quality(self):
         return max(self._a)
